@@ -259,6 +259,8 @@ def run_check(prop, tier, seed=None):
         'wall_s': round(wall, 2),
         'violations': len(fresh),
     }
+    if hasattr(m, 'finalise_evidence'):
+        m.finalise_evidence(ev['coverage'])
     os.makedirs(os.path.join(VERIF, 'evidence'), exist_ok=True)
     with open(os.path.join(VERIF, 'evidence', '%s.json' % prop), 'w') as f:
         json.dump(ev, f, indent=1, sort_keys=True)
